@@ -671,7 +671,9 @@ func caseClauseCase(ctx *core.Ctx, idx int, res *core.Result, prop string) {
 	// the site is reported or left alone, never turned into the default clause
 	{
 		pt := "@@\nvar cx expression\n@@\n " + sw + "\n-case cx, ...:\n+case ...:\n   foo()\n }\n"
-		mk := func(c string) string { return "package p\n\nfunc f() {\n\t" + sw + "\n\t" + c + "\n\t\tfoo()\n\t}\n}\n" }
+		mk := func(c string) string {
+			return "package p\n\nfunc f() {\n\t" + sw + "\n\t" + c + "\n\t\tfoo()\n\t}\n}\n"
+		}
 		srcs := []string{mk("default:"), mk("case " + one + ":"), mk("case " + two + ":")}
 		second := strings.TrimSpace(strings.SplitN(two, ",", 2)[1])
 		for i, run := range applyAPI(pt, srcs) {
